@@ -54,7 +54,9 @@ class Requirement:
                 ('multiple specifiers ({}) used in pkg-config requirement ' +
                  "for '{}'").format(self.version, self.name)
             )
-        return [SimpleRequirement(self.name, i) for i in specs]
+        # `specs` is an unordered set; keep the generated file reproducible.
+        return [SimpleRequirement(self.name, i)
+                for i in sorted(specs, key=str)]
 
     def __hash__(self):
         return hash((self.name, self.version))
